@@ -615,6 +615,11 @@ v('C18', 'fire', 'transform.py', '        columns = first.columns.intersection(s
 v('C18', 'silent', 'transform.py', '        columns = first.columns.intersection(second.columns)', '        columns = first.columns & second.columns', 'intersection spelled with &')
 v('C01 C02 C15', 'fire', 'strapdown.py', "        theta = np.ascontiguousarray(increments[['theta_x', 'theta_y', 'theta_z']])", "        theta = np.ascontiguousarray(increments[['theta_x', 'theta_y', 'theta_z']], dtype=np.float32)", 'increments narrowed to single precision')
 v('C01 C02', 'silent', 'strapdown.py', "        theta = np.ascontiguousarray(increments[['theta_x', 'theta_y', 'theta_z']])", "        theta = np.ascontiguousarray(increments[['theta_x', 'theta_y', 'theta_z']], dtype=float)", 'explicit double')
+# ------------------------------------------------------------------ survey (new operators), sixth session
+v('C09 C10', 'fire', 'filters.py', '    if measurements is None:', '    if measurements is not None:', 'survey: default installed under the negated test', every=True)
+v('C09 C10', 'fire', 'filters.py', '    gyro_sd = pd.DataFrame(gyro_sd, index=trajectory.index, columns=gyro_model.states)', '    gyro_sd = pd.DataFrame(gyro_sd, columns=gyro_model.states)', 'survey: result table without its time index')
+v('C10 C11', 'fire', 'filters.py', '    gyro = pd.DataFrame(x_gyro, index=trajectory.index, columns=gyro_model.states)', '    gyro = pd.DataFrame(x_gyro, columns=gyro_model.states)', 'survey: result table without its time index')
+v('C09 C10', 'silent', 'filters.py', '    gyro_sd = pd.DataFrame(gyro_sd, index=trajectory.index, columns=gyro_model.states)', '    gyro_sd = pd.DataFrame(gyro_sd, trajectory.index, gyro_model.states)', 'index and columns passed by position')
 # ------------------------------------------------------------------ geometry C16 C05 C04 C03 C18
 T = 'transform.py'
 v('C16 C05', 'fire', T, '    rn, _, rp = earth.principal_radii(lla[:, 0], lla[:, 2])\n\n    lla[:, 0] +=',
